@@ -155,5 +155,17 @@ func init() {
 			return after, seen, err
 		},
 		Header: func(tag string) ([]byte, error) { return gengo.GoBoilerplate("", tag, "") },
+		HeaderFile: func(tag, boilerplate, generatedBy string) ([]byte, error) {
+			dir, err := os.MkdirTemp("", "verif-hdr-")
+			if err != nil {
+				return nil, err
+			}
+			defer os.RemoveAll(dir)
+			fn := filepath.Join(dir, "boilerplate.go.txt")
+			if err := os.WriteFile(fn, []byte(boilerplate), 0o644); err != nil {
+				return nil, err
+			}
+			return gengo.GoBoilerplate(fn, tag, generatedBy)
+		},
 	})
 }
